@@ -63,6 +63,9 @@ type Case struct {
 	NoParse bool `json:"noparse"`
 	// Reuse: serve on the API value of the previous case when package and configuration are the same
 	Reuse bool `json:"reuse"`
+	// Inherit: the request carries the context the previous request on this API value had when it
+	// reached the outermost middleware
+	Inherit bool `json:"inherit"`
 	// Resp: index (mod count) of the response constructor the handler uses
 	Resp int `json:"resp"`
 	// extra, op-specific payload
@@ -100,6 +103,9 @@ func (w *countingWriter) Write(b []byte) (int, error) {
 }
 
 func Main() {
+	// an unbounded recursion in generated code should die quickly, not after growing the stack to
+	// the default 1 GB in each of the shard processes
+	debug.SetMaxStack(64 << 20)
 	in := bufio.NewReaderSize(os.Stdin, 1<<20)
 	out := bufio.NewWriterSize(os.Stdout, 1<<16)
 	defer out.Flush()
@@ -200,6 +206,12 @@ type apiState struct {
 	key    string
 	apiPtr reflect.Value
 	tr     *trace
+	// lastCtx: context of the last request as the outermost middleware saw it
+	lastCtx context.Context
+	// inherited: the context this request was given (nil: a fresh one). A request that is not
+	// dispatched to an operation gets nothing attached, so its handler sees this very context and
+	// whatever its parent had stored in it: not something this dispatch reported
+	inherited context.Context
 	// conc: events go to the trace carried by the request's context (one per request), so that
 	// the driver itself shares nothing between concurrently served requests
 	conc bool
@@ -246,6 +258,9 @@ func buildAPI(p *Pkg, c *Case) *apiState {
 			if c.NF {
 				fv.Set(reflect.ValueOf(http.Handler(http.HandlerFunc(func(w http.ResponseWriter, r *http.Request) {
 					_, ok := p.SchemaPath(r)
+					if st.inherited != nil && r.Context() == st.inherited {
+						ok = false
+					}
 					st.trFor(r).add("NF(%v)", ok)
 					w.WriteHeader(404)
 				}))))
@@ -264,6 +279,9 @@ func buildAPI(p *Pkg, c *Case) *apiState {
 					}
 					h := http.Handler(http.HandlerFunc(func(w http.ResponseWriter, r *http.Request) {
 						_, ok := p.SchemaPath(r)
+						if st.inherited != nil && r.Context() == st.inherited {
+							ok = false
+						}
 						if st.conc {
 							st.trFor(r).add("CORS(%s;%s)", strings.Join(ms, ","), strings.Join(hs, ","))
 						}
@@ -282,6 +300,9 @@ func buildAPI(p *Pkg, c *Case) *apiState {
 					return http.HandlerFunc(func(w http.ResponseWriter, r *http.Request) {
 						sp, ok := p.SchemaPath(r)
 						st.trFor(r).add("M%d>(%s,%v)", k, sp, ok)
+						if k == 0 && !st.conc {
+							st.lastCtx = r.Context()
+						}
 						next.ServeHTTP(w, r)
 						st.trFor(r).add("M%d<", k)
 					})
@@ -364,7 +385,13 @@ func serve(p *Pkg, c *Case) string {
 				tr.add("PANIC:%s", hx(fmt.Sprint(r)))
 			}
 		}()
-		apiPtr.Interface().(http.Handler).ServeHTTP(w, buildRequest(c))
+		req := buildRequest(c)
+		st.inherited = nil
+		if c.Inherit && st.lastCtx != nil {
+			req = req.WithContext(st.lastCtx)
+			st.inherited = st.lastCtx
+		}
+		apiPtr.Interface().(http.Handler).ServeHTTP(w, req)
 	}()
 	body := w.body.String()
 	bsum := "len=" + strconv.Itoa(len(body))
@@ -395,6 +422,9 @@ func callParse(req reflect.Value) (out string) {
 
 // DumpErr maps a parse error to (kind, location, name).
 func DumpErr(err error) string {
+	// what a handler does with a parse error is to put its text into the 400 response: the text
+	// itself has to be obtainable (the caller recovers and reports a panic of Error())
+	_ = err.Error()
 	v := reflect.ValueOf(err)
 	if v.Kind() == reflect.Struct && v.Type().Name() == "ErrParseParam" {
 		in := v.FieldByName("In").String()
